@@ -219,7 +219,7 @@ func Tan(d Number) Number {
 // Special cases are:
 //
 //	Asin(±0) = (±0+Nϵ)
-//	Asin(±1) = (±Inf+Infϵ)
+//	Asin(±1) = (±Pi/2+Infϵ)
 //	Asin(x) = NaN if x < -1 or x > 1
 func Asin(d Number) Number {
 	if d.Real == 0 {
